@@ -10,7 +10,7 @@ from vf.markup import ESC, GT, LT
 LEVEL = "exploration"
 RULE = (
     "messages: Hypothesis markup trees (registered tags, inline fg/bg/options specs, closed by name or by the short "
-    "closing tag, unknown tags and angle brackets as text, newlines, non-ASCII), each formatted by the ANSI and the "
+    "closing tag, unknown tags, escaped registered tags and angle brackets as text, newlines, non-ASCII), each formatted by the ANSI and the "
     "plain formatter and written through decorated / undecorated outputs; styles: all 18 x 18 x 2^7 = 41472 styles "
     "supplied in the style set, added later, and passed for a single call (exhaustive in both tiers); newline: every "
     "'*line*' method found by reflection on IO / Output / SectionOutput x ANSI/plain x stream; indentation: Hypothesis "
@@ -20,7 +20,8 @@ RULE = (
     "hash (generated) / by construction (enumerated)."
 )
 ASSUMPTIONS = [
-    "messages contain no backslash (pastel's escape character) and tokenise unambiguously into the intended tags",
+    "the only backslashes in messages are pastel's escape character directly in front of a tag (rendered as the literal tag "
+    "text); messages tokenise unambiguously into the intended tags",
     "nested styles do not combine: the innermost style is in force (pastel semantics), checked per character",
     "SGR code sets are compared as sets; every styled run must be closed by ESC[0m",
 ]
